@@ -29,13 +29,15 @@ pub enum Backing {
     Vec,
     Small2,
     Small4,
-    // Other item types (the container is generic): zero-sized, 8-byte, 24-byte, padded pair.
+    // Other item types (the container is generic): zero-sized, 8-byte, 24-byte, padded pair, 200-byte.
     VecUnit,
     SmallUnit4,
     VecU64,
     SmallU64x2,
     VecWide,
     SmallPair3,
+    /// 200-byte items: bulkier than a cache line or two, where an implementation might treat items differently.
+    VecBulky,
 }
 
 /// Item types the deques are instantiated with; values are derived from the case's bytes.
@@ -59,6 +61,14 @@ impl Elem for [u8; 24] {
     fn of(v: u8) -> Self {
         let mut a = [v; 24];
         a[23] = !v;
+        a
+    }
+}
+impl Elem for [u8; 200] {
+    fn of(v: u8) -> Self {
+        let mut a = [v; 200];
+        a[0] = !v;
+        a[199] = v ^ 0x55;
         a
     }
 }
@@ -291,6 +301,7 @@ pub fn check_case(case: &Case) -> CaseResult {
         Backing::SmallU64x2 => run_typed::<SmallVec<[u64; 2]>, u64>(case, 2),
         Backing::VecWide => run_typed::<Vec<[u8; 24]>, [u8; 24]>(case, 0),
         Backing::SmallPair3 => run_typed::<SmallVec<[(u32, u16); 3]>, (u32, u16)>(case, 3),
+        Backing::VecBulky => run_typed::<Vec<[u8; 200]>, [u8; 200]>(case, 0),
     }
 }
 
@@ -440,6 +451,7 @@ fn any_backing() -> impl Strategy<Value = Backing> {
         1 => Just(Backing::VecU64),
         1 => Just(Backing::SmallU64x2),
         1 => Just(Backing::VecWide),
+        1 => Just(Backing::VecBulky),
         1 => Just(Backing::SmallPair3),
     ]
 }
